@@ -28,7 +28,8 @@ func init() {
 	})
 }
 
-const c17TypeRef = `kind name ofType{kind name ofType{kind name ofType{kind name ofType{kind name}}}}`
+// nine levels: the deepest reference of the subjects is [[[Int!]!]!]! (seven wrappers and the named type)
+const c17TypeRef = `kind name ofType{kind name ofType{kind name ofType{kind name ofType{kind name ofType{kind name ofType{kind name ofType{kind name ofType{kind name}}}}}}}}`
 
 func c17TypeSel(dep string) string {
 	return `kind name description fields` + dep + `{name description isDeprecated deprecationReason args{name description defaultValue type{` + c17TypeRef + `}} type{` + c17TypeRef + `}} ` +
@@ -112,6 +113,40 @@ func runC17(c *core.Ctx) {
 				}
 			}
 		}
+	}
+	// round 10: every way of nesting a list in a list with non-null marks between, around and inside (8 shapes),
+	// as fields and as argument types of the first object type of every base - ofType must unroll each mark.
+	for i, b := range bases {
+		m := b.Clone()
+		for di, d := range m.Defs {
+			if d.Kind != sgen.KObject || d.Extend {
+				continue
+			}
+			n := 0
+			for _, outer := range []bool{false, true} {
+				for _, mid := range []bool{false, true} {
+					for _, inner := range []bool{false, true} {
+						t := sgen.N("Int")
+						if inner {
+							t = sgen.NN(t)
+						}
+						t = sgen.L(t)
+						if mid {
+							t = sgen.NN(t)
+						}
+						t = sgen.L(t)
+						if outer {
+							t = sgen.NN(t)
+						}
+						m.Defs[di].Fields = append(m.Defs[di].Fields, &sgen.Field{Name: fmt.Sprintf("deep%d", n), Type: t,
+							Args: []*sgen.Arg{{Name: "a", Type: sgen.L(t)}}})
+						n++
+					}
+				}
+			}
+			break
+		}
+		subjects, descs = append(subjects, m), append(descs, fmt.Sprintf("S%d + lists of lists under every non-null marking", i))
 	}
 	strats := []world.Strategy{world.RS, world.FS, world.AS}
 	completed := true
